@@ -167,6 +167,20 @@ Reverse(p) ==
                        !.ch = NumHops(p) - p.ch - 1]
     IN [q EXCEPT !.ci = InfIdx(q, q.ch)]
 
+\* ------------------------------------------------------------------ SCMP answers (prepareSCMP, path part)
+\* p: the packet as the fast path left it when it asked for the slow path; as: the answering AS;
+\* scope: scope of the link the packet came in through (the answer leaves through the same link).
+ScmpReply(as, scope, p) ==
+    LET q0 == [Reverse(p) EXCEPT !.src = as, !.dst = p.src]
+        peering == PeerOf(q0)
+        q1 == IF IsXover(q0) /\ ~peering THEN IncPath(q0) ELSE q0      \* revert the cross-over
+    IN IF scope # "ext" THEN q1
+       ELSE \* towards another AS: this router is also the egress router of the answer
+            LET i == CurInf(q1)
+                q2 == IF i.c /\ ~peering
+                      THEN [q1 EXCEPT !.infos[q1.ci + 1].sid = Upd(i.sid, CurHop(q1).sig)] ELSE q1
+            IN IncPath(q2)
+
 \* ------------------------------------------------------------------ C07: bytes a router may change
 \* mo: offset of the path meta header; d: <<offset, old, new>>.
 InfoSidBytes(mo, i) == {mo + 4 + 8 * i + 2, mo + 4 + 8 * i + 3}
